@@ -15,6 +15,7 @@ import common
 import systems
 
 LEVEL = "proof"
+SKIPPED = {}
 ENTRIES = ["propagate_phaseless_ad", "propagate_phaseless_ad_nosr", "propagate_phaseless_ad_norot", "propagate_phaseless_ad_nosr_norot"]
 
 
@@ -101,7 +102,15 @@ def derivative_checks(S, smp, name, obs, spec_fail, desc, tight=None):
     try:
         ep, _ = smp.propagate_phaseless(S["ham"], dict(S["ham_data"]), S["prop"], systems.copy_prop_data(S["prop_data"]), S["trial"], dict(S["wave_data"]))
         same_structure = "nosr" not in name or smp.n_sr_blocks == 1
-        if same_structure and abs(float(np.real(ep)) - e0) > 1e-8 * max(1.0, abs(e0)):
+        # hypothesis of the equality: the trial is a fixed point of the SCF map (the AD entry re-optimises it, the plain sampler
+        # does not).  Measured with an independent Roothaan step; a trial that is not converged to 1e-11 is outside the clause.
+        try:
+            converged = "norot" in name or systems.scf_residual(S) <= 1e-11
+        except Exception:
+            converged = True
+        if not converged:
+            SKIPPED["primal_vs_plain_trial_not_converged"] = SKIPPED.get("primal_vs_plain_trial_not_converged", 0) + 1
+        if same_structure and converged and abs(float(np.real(ep)) - e0) > 1e-8 * max(1.0, abs(e0)):
             spec_fail.append((name, "primal energy equals the plain (non-AD) sampler at zero coupling", {**desc, "ad": e0, "plain": float(np.real(ep))}))
         n += 1
     except Exception as ex:
@@ -298,6 +307,7 @@ def run(ctx):
     ctx.cov["rule"] = "AD entry points x walker types x block structures (quick: 2 entry points per walker type; thorough: all 4 x 2 structures); one-body limit for rhf and uhf"
     ctx.cov["samples"] = combos[:3]
     ctx.cov["correspondence"] = {"function_evaluations": evals}
+    ctx.cov["skipped"] = dict(SKIPPED)
     ctx.assumptions += ["JAX jvp/vjp/checkpoint/custom_jvp correctness is NOT verified - compared with finite differences",
                         "finite differences of a seeded estimator stay inside one branch of the discrete decisions (comb indices, clips) for h <= 1e-3"]
     seen = set()
